@@ -23,7 +23,11 @@ THEOREMS = [
     "c08_server_one_response",
     "c08_tool_resource_codes",
     "c08_pinned_code_violates",
-    # second layer: the content of the library's handlers (Model/McpServer.lean)
+]
+# second layer — the content of the library's handlers (Model/McpServer.lean) and the independence theorems: next to the
+# property, not stated by its text (Props/C08Supp.lean; reported as INFO, never a verdict)
+SUPP_GEN: list[str] = []
+SUPP_THEOREMS = [
     "c08_tools_list_exact",
     "c08_register_same_name_keeps_latest",
     "c08_tools_call_invokes_exactly",
@@ -37,6 +41,7 @@ THEOREMS = [
     "c08_content_refines_dispatch",
     "c08_response_independent_of_history",
     "c08_servers_independent",
+    "c08_reentrant_dispatch_independent",
 ]
 RULE = (
     "hardening sweep: falsy values (ids 0 / 0.0 / '', tool name '' and uri '' registered, falsy tool/resource/custom results, falsy "
@@ -116,7 +121,8 @@ GENERIC_PARAMS = ["<absent>", None, {}, {"x": 1, "_meta": {"progressToken": 0}},
                   {"progressToken": "tok", "progress": 1, "requestId": None},
                   {"requestId": 0, "progressToken": "", "name": "", "uri": "", "arguments": {}, "clientInfo": {}, "protocolVersion": ""}]
 IDS = IDS + H.SYNTAX_TEXT[:6]
-ODD_METHODS = ODD_METHODS + H.SYNTAX_TEXT
+ODD_METHODS = ODD_METHODS + H.SYNTAX_TEXT + ["\ufeffping", "ping\ufeff", "pi\u0301ng", "Ping", "tools/Call"]
+BIG_PARAMS = {"blob": "b" * 300000, "name": "echo", "uri": "file:///ok", "arguments": {"text": "t" * 100000}}
 TYPE_CLASSES = [None, True, False, 0, 7, -1, 1.5, 0.0, "", "x", [], ["x"], {}, {"x": 1}, "<absent>"]
 CORE_METHODS = H.BUILTIN + ["notifications/cancelled", "notifications/progress", "custom/answers", "custom/raises", "nosuch"]
 
@@ -124,7 +130,7 @@ ARGUMENTS = ["<absent>", {}, {"text": "x"}, {"text": None}, {"text": [1, {"a": N
              None, [1], "s", 5, {"text": ""}, {"text": 0}, {"text": False}, {"text": []}, {"text": {}}, {"text": H.HOSTILE_TEXT},
              [], "", 0, False, {"": 1}, {"handler": 1}, {"name": "echo"}]
 ARGUMENTS_Q = ["<absent>", {}, {"text": ""}, {"text": 0}, {"other": 1}, None, [], "", 0, False, {"text": H.HOSTILE_TEXT}]
-NAME_EXTRAS = ["nosuch", "ECHO", "echo ", 5, 0, 7, 7.0, 1.5, True, False, None, ["echo"], {"name": "echo"}, [], {}, "<absent>"]
+NAME_EXTRAS = ["cafe\u0301", "caf\u00e9 ", "bom", "\ufeffecho", "STRASSE", "Strasse", "nosuch", "ECHO", "echo ", 5, 0, 7, 7.0, 1.5, True, False, None, ["echo"], {"name": "echo"}, [], {}, "<absent>"]
 URI_EXTRAS = ["file:///nosuch", "FILE:///OK", 5, 0, True, False, None, ["file:///ok"], {"uri": "file:///ok"}, [], {}, 1.5, "<absent>"]
 INIT_PARAMS = ["<absent>", None, {}, {"protocolVersion": "2025-06-18", "clientInfo": {"name": "c", "version": "1"}, "capabilities": {}},
                {"protocolVersion": "2025-06-18"}, {"clientInfo": None}, {"clientInfo": 5, "capabilities": []},
@@ -231,6 +237,12 @@ def directed(budget):
         if me != "<absent>":
             out.append(mk(me, 1, {}, "list"))
             out.append(mk(me, "<absent>", {}, "list"))
+    # size: one message far above every buffer (300 KB of params, 1 MB method name), for every core method
+    for me in CORE_METHODS + ["custom/none", "reenter/request/raises"]:
+        for i in ("<absent>", 0, "big"):
+            out.append(mk(me, i, BIG_PARAMS))
+    for i in ("<absent>", 0, "i" * 1000000):
+        out.append(mk("y" * 1000000, i, {}))
     # ids harvested from the source (error codes, limits) and session-id arguments of every kind
     for me in CORE_METHODS:
         for i in hints + harvest()[0][::4]:
@@ -386,6 +398,20 @@ def sequences(rng, n):
                 if k == 3:
                     c["debug"] = True
                 out.append(c)
+    # the environment moves: hours, a day, a year pass (or the clock is put back) between two messages that carry the id of a
+    # live session — the session store is consulted on every dispatch with a session id, before the handler
+    init = ("initialize", 1, {"protocolVersion": "2025-06-18", "clientInfo": {"name": "c"}})
+    followers = [("ping", 2, "<absent>"), ("nosuch", 2, {}), ("custom/raises", 2, {}), ("tools/call", 2, {"name": "echo"}),
+                 ("notifications/cancelled", "<absent>", {"requestId": 1}), ("custom/raises", "<absent>", {}), init, ("tools/list", 0, {})]
+    for adv in (0, 1, 59, 60, 61, 3599, 3600, 3601, 7200, 86400, 86400 * 400, -3600):
+        for f in followers:
+            out.append({"seq": [dict(mk(*init)), dict(mk(*init)), dict(mk(*f), sid="$last", advance=adv),
+                                dict(mk(*f), sid="$last", advance=adv), dict(mk("ping", 3, "<absent>"), sid="$last", advance=1)]})
+    # growth: the 600th message of a session, a table of sessions that only grows
+    long_seq = [dict(mk(*init))]
+    for k in range(600):
+        long_seq.append(dict(mk(*(init if k % 7 == 0 else ("ping", k, "<absent>"))), sid="$last", advance=k % 3))
+    out.append({"seq": long_seq})
     for f in fixed:
         for reuse in (False, True):
             for sid in (None, "$last", ""):
@@ -538,7 +564,7 @@ class Dispatch(Suite):
         out = directed(budget)
         rng = ctx.sub_rng("c08", budget)
         meths = all_methods()
-        n = 6000 if budget == "quick" else 60000
+        n = 3500 if budget == "quick" else 60000
         for _ in range(n):
             out.append(seeded(rng, meths))
         ctx.exhaustive_parts.append(
@@ -650,7 +676,7 @@ class Sequences(Suite):
     uses_model = False
 
     def cases(self, ctx, budget):
-        return sequences(ctx.sub_rng("c08seq", budget), 400 if budget == "quick" else 6000)
+        return sequences(ctx.sub_rng("c08seq", budget), 250 if budget == "quick" else 6000)
 
     def impl_batch(self, cases):
         return [H.run_case(c) for c in cases]
@@ -681,8 +707,6 @@ class Sequences(Suite):
 
 
 # ---- second layer: content of MCPServer's handlers ---------------------------------------------
-
-CONTENT_NOTES: list = []  # informational divergences (content the property text does not fix)
 
 C_NAMES = ["echo", "add", "echo", "", "t/1", "Ünï", "list"]
 C_URIS = ["file:///a/b.txt", "file:///a/", "plain", "", "file:///a/b.txt", "mem://x/y/z"]
@@ -809,6 +833,7 @@ class Content(Suite):
     """MCPServer's own handlers with recording application handlers vs Model/McpServer.lean: full results (tools/list,
     resources/list, tools/call content, resources/read contents, initialize), responses and the log of handlers run"""
     name = "content"
+    supplementary = True  # a difference from the content-level model is an INFO line and an evidence note, never a verdict
 
     def cases(self, ctx, budget):
         rng = ctx.sub_rng("c08content", budget)
@@ -835,7 +860,7 @@ class Content(Suite):
                      ["msg", {"jsonrpc": "2.0", "id": "d", "method": "initialize"}],
                      ["msg", {"jsonrpc": "2.0", "id": "e", "method": "ping"}]]},
         ]
-        return fixed + [rand_scenario(rng) for _ in range(700 if budget == "quick" else 12000)]
+        return fixed + [rand_scenario(rng) for _ in range(500 if budget == "quick" else 12000)]
 
     def impl_batch(self, cases):
         obs = [MC.run_scenario(c) for c in cases]
@@ -851,13 +876,9 @@ class Content(Suite):
             return "driver error"
         norm = MC.normalise_impl(case, o)
         if canon(MC.shape(norm["resps"])) != canon(MC.shape(m["resps"])):
-            return "responses differ in what the property names"  # presence, id, result / error code
+            return "responses differ in presence / id / code"
         if canon(norm) != canon({"resps": m["resps"], "log": m["log"]}):
-            # content the property text does not fix (listing order, content blocks, which handler ran): informational
-            if len(CONTENT_NOTES) < 5:
-                CONTENT_NOTES.append({"scenario": case, "impl": norm, "model": m})
-            elif len(CONTENT_NOTES) == 5:
-                CONTENT_NOTES.append({"more": True})
+            return "results or the log of handlers run differ (content the property text does not fix)"
         return None
 
     def oracle(self, case, o):
@@ -877,22 +898,12 @@ class Content(Suite):
             yield dict(case, ops=ops[:i] + ops[i + 1:])
 
 
-def extra(ctx, tier):
-    """supplementary (content-level) correspondence: differences are reported as notes, not as violations"""
-    if CONTENT_NOTES:
-        ctx.notes.append("INFORMATIONAL: the content-level model of MCPServer's handlers (Model/McpServer.lean) differs from the code "
-                         "on %s scenario(s) in results the property text does not fix; first: %s"
-                         % ("5+" if len(CONTENT_NOTES) > 5 else len(CONTENT_NOTES), canon(CONTENT_NOTES[0])[:1500]))
-        print(f"# C08 content-level model: {len(CONTENT_NOTES)} informational difference(s), see evidence notes")
-        del CONTENT_NOTES[:]
-
-
 class Concurrent(Sequences):
     """overlapping dispatches on one or several live server instances; judged message by message"""
     name = "concurrent"
 
     def cases(self, ctx, budget):
-        return concurrent(ctx.sub_rng("c08conc", budget), 400 if budget == "quick" else 8000)
+        return concurrent(ctx.sub_rng("c08conc", budget), 250 if budget == "quick" else 8000)
 
     @staticmethod
     def _steps(case):
